@@ -129,7 +129,7 @@ func c39(c *an.Check) {
 
 func init() {
 	register(&Def{ID: "C39", Run: c39,
-		Explain:     "Decides on SSA: (R2b) OpenOrWritePrivKey has no return yielding (nil key, nil error), using the computed summary that keypem.ParsePrivKeyPem may itself return (nil,nil); (R2a) failures of Stat (other than not-exist), ReadFile, ParsePrivKeyPem, key generation, PEM marshalling and WriteFile never lead to a return with a known-nil error; (R1) success needs read+parse or generate+marshal+write; (PROVENANCE) the file written is the PEM of the generated key at the requested path, the bytes parsed are those read from that path, and the key returned is the generated/parsed one; (USEGUARD) callers in cmd/bifrost and cli (thorough: whole repo) use the key only on err==nil paths, and the CLI's direct calls of the (nil,nil)-capable PEM parser use its result only where it is known non-nil. (USEGUARD) direct callers of the (nil,nil)-capable PEM parser in cli, cli/util and cmd/bifrost use its result only where it is known non-nil. Key-type dispatch and Ed25519 private-key decode gates (shared with C11).",
+		Explain:     "Decides on SSA: (R2b) OpenOrWritePrivKey has no return yielding (nil key, nil error), using the computed summary that keypem.ParsePrivKeyPem may itself return (nil,nil); (R2a) failures of Stat (other than not-exist), ReadFile, ParsePrivKeyPem, key generation, PEM marshalling and WriteFile never lead to a return with a known-nil error; (R1) success needs read+parse or generate+marshal+write; (PROVENANCE) the file written is the PEM of the generated key at the requested path, the bytes parsed are those read from that path, and the key returned is the generated/parsed one; (USEGUARD) callers in cmd/bifrost and cli (thorough: whole repo) use the key only on err==nil paths, and the CLI's direct calls of the (nil,nil)-capable PEM parser use its result only where it is known non-nil. (USEGUARD) direct callers of the (nil,nil)-capable PEM parser in cli, cli/util and cmd/bifrost use its result only where it is known non-nil. Key-type dispatch and Ed25519 private-key decode gates (shared with C11). (OWNERSHIP) the key decoders unmarshal into a zero message.",
 		NotCov:      "that a re-load yields the same peer identity (PEM/protobuf round-trip, C11) and OS-level file semantics.",
 		Assumptions: commonAssumptions})
 }
